@@ -93,7 +93,15 @@ fn id(i: usize) -> String {
 fn write_workspace(root: &Path, dep_lists: &[Vec<usize>], dangling: Option<usize>) {
     for (i, deps) in dep_lists.iter().enumerate() {
         let d = root.join(format!("dir{}", (i * 7) % 10)).join(format!("bp{i}"));
-        std::fs::create_dir_all(&d).unwrap();
+        if i % 4 == 1 {
+            // node 1 lives outside the workspace directory and is linked into it
+            let real = root.parent().unwrap().join("ext").join(format!("bp{i}"));
+            std::fs::create_dir_all(&real).unwrap();
+            std::fs::create_dir_all(d.parent().unwrap()).unwrap();
+            std::os::unix::fs::symlink(&real, &d).unwrap();
+        } else {
+            std::fs::create_dir_all(&d).unwrap();
+        }
         let has_deps = !deps.is_empty() || dangling == Some(i);
         // node 2 (when it has dependencies) is a libcnb.rs buildpack (component descriptor + Cargo.toml)
         // that carries its own package.toml with libcnb: dependencies; all other nodes with
@@ -157,11 +165,13 @@ type Viol = (String, String, serde_json::Value);
 fn check_dag(deps: &Dag, dep_lists: &[Vec<usize>]) -> (u64, Vec<Viol>, BTreeSet<String>) {
     let n = deps.len();
     let sc = Scratch::new("c13");
-    write_workspace(&sc.path, dep_lists, None);
+    let ws_root = sc.path.join("ws");
+    std::fs::create_dir_all(&ws_root).unwrap();
+    write_workspace(&ws_root, dep_lists, None);
     let mut viols = Vec::new();
     let mut shapes = BTreeSet::new();
     let replay = |roots: &[usize]| json!({"dep_lists": dep_lists, "roots": roots});
-    let graph = match build_libcnb_buildpacks_dependency_graph(&sc.path) {
+    let graph = match build_libcnb_buildpacks_dependency_graph(&ws_root) {
         Ok(g) => g,
         Err(e) => {
             viols.push(("graph-construction-failed".into(), format!("valid workspace {dep_lists:?} rejected: {e}"), replay(&[])));
@@ -214,10 +224,29 @@ fn check_dag(deps: &Dag, dep_lists: &[Vec<usize>]) -> (u64, Vec<Viol>, BTreeSet<
 
 fn check_dangling(dep_lists: &[Vec<usize>], at: usize) -> Option<Viol> {
     let sc = Scratch::new("c13d");
-    write_workspace(&sc.path, dep_lists, Some(at));
-    match build_libcnb_buildpacks_dependency_graph(&sc.path) {
+    let ws_root = sc.path.join("ws");
+    std::fs::create_dir_all(&ws_root).unwrap();
+    write_workspace(&ws_root, dep_lists, Some(at));
+    match build_libcnb_buildpacks_dependency_graph(&ws_root) {
         Err(_) => None,
         Ok(g) => Some(("dangling-dependency-accepted".into(), format!("workspace {dep_lists:?} with a libcnb: dependency on an unknown id at node {at} produced a graph with {} nodes / {} edges", g.node_count(), g.edge_count()), json!({"dep_lists": dep_lists, "dangling": at}))),
+    }
+}
+
+/// a package.toml that exists but cannot be read as text (ISO-8859-1 comment): an error, not "no dependencies"
+fn check_unreadable(dep_lists: &[Vec<usize>], at: usize) -> Option<Viol> {
+    let sc = Scratch::new("c13u");
+    let ws_root = sc.path.join("ws");
+    std::fs::create_dir_all(&ws_root).unwrap();
+    write_workspace(&ws_root, dep_lists, None);
+    let d = ws_root.join(format!("dir{}", (at * 7) % 10)).join(format!("bp{at}"));
+    let p = d.join("package.toml");
+    let mut bytes = b"# caf\xe9\n".to_vec();
+    bytes.extend(std::fs::read(&p).unwrap_or_else(|_| b"[buildpack]\nuri = \".\"\n".to_vec()));
+    std::fs::write(&p, bytes).unwrap();
+    match build_libcnb_buildpacks_dependency_graph(&ws_root) {
+        Err(_) => None,
+        Ok(g) => Some(("unreadable-package-toml-accepted".into(), format!("workspace {dep_lists:?} whose node {at} has a package.toml that is not valid UTF-8 produced a graph with {} nodes / {} edges", g.node_count(), g.edge_count()), json!({"dep_lists": dep_lists, "unreadable": at}))),
     }
 }
 
@@ -305,6 +334,10 @@ pub fn run(args: &Args) {
     for v in dres.into_iter().flatten() {
         rep.violation(&v.0, v.1, v.2);
     }
+    let ures: Vec<_> = dj.par_iter().filter(|(l, _)| l.len() <= 3).map(|(l, at)| check_unreadable(l, *at)).collect();
+    for v in ures.into_iter().flatten() {
+        rep.violation(&v.0, v.1, v.2);
+    }
     let nontrivial = jobs.iter().filter(|(d, _)| d.iter().any(|x| *x != 0)).count() as u64;
     rep.cov("evaluations", evals + dj.len() as u64);
     rep.cov("dags", n_dags);
@@ -313,7 +346,7 @@ pub fn run(args: &Args) {
     rep.cov("dangling_cases", dj.len() as u64);
     rep.cov("distinct_nontrivial", nontrivial);
     rep.cov("distinct_outcomes", json!(shapes));
-    rep.cov("rule", "every labelled DAG on <= n nodes (n<=4: every permutation of every dependency list; n=5: ascending and descending), written as composite / libcnb.rs buildpack directories and loaded by the real build_libcnb_buildpacks_dependency_graph; every ordered non-empty root selection through the real get_dependencies; plus every DAG on <= 4 nodes with one dangling libcnb: dependency at each node (a well-formed unknown id, an invalid id, or a reserved id, by node index). non-trivial = workspaces with at least one edge");
+    rep.cov("rule", "every labelled DAG on <= n nodes (n<=4: every permutation of every dependency list; n=5: ascending and descending), written as composite / libcnb.rs buildpack directories and loaded by the real build_libcnb_buildpacks_dependency_graph; every ordered non-empty root selection through the real get_dependencies; plus every DAG on <= 4 nodes with one dangling libcnb: dependency at each node (a well-formed unknown id, an invalid id, or a reserved id, by node index), and every DAG on <= 3 nodes with one package.toml that is not valid UTF-8 (an error, not a leaf); node 1 is always a symlink to a directory outside the workspace root. non-trivial = workspaces with at least one edge");
     rep.cov("bound", json!({"max_nodes": max_n}));
     rep.cov("exhaustive", true);
     rep.sample(json!({"dep_lists": jobs[jobs.len() / 2].1, "roots": "every ordered non-empty selection"}));
